@@ -1675,10 +1675,22 @@ class SoftAbsRegularizedPositiveDefiniteMatrix(
 
     def grad_quadratic_form_inv(self, vector: NDArray) -> NDArray:
         num_j_mtx = self.eigval[:, None] - self.eigval[None, :]
-        num_j_mtx += np.diag(self.grad_softabs(self.unreg_eigval))
         den_j_mtx = self.unreg_eigval[:, None] - self.unreg_eigval[None, :]
-        np.fill_diagonal(den_j_mtx, 1)
-        j_mtx = num_j_mtx / den_j_mtx
+        # The divided differences of the softabs function tend to its derivative as
+        # the eigenvalues coincide: use the derivative on the diagonal and for
+        # (numerically) repeated eigenvalues to avoid evaluating 0 / 0
+        grad_eigval = self.grad_softabs(self.unreg_eigval)
+        abs_unreg_eigval = abs(self.unreg_eigval)
+        is_repeated = abs(den_j_mtx) <= 1e-8 * np.maximum(
+            1.0,
+            np.maximum(abs_unreg_eigval[:, None], abs_unreg_eigval[None, :]),
+        )
+        den_j_mtx[is_repeated] = 1
+        j_mtx = np.where(
+            is_repeated,
+            0.5 * (grad_eigval[:, None] + grad_eigval[None, :]),
+            num_j_mtx / den_j_mtx,
+        )
         e_vct = (self.eigvec.T @ vector) / self.eigval
         return -((self.eigvec @ (np.outer(e_vct, e_vct) * j_mtx)) @ self.eigvec.T)
 
